@@ -285,6 +285,10 @@ func propC09(c c09Case, o *Obs) error {
 			}
 			h = hs[op.H]
 		}
+		if len(ReadList(dir)) == 0 {
+			// an emptied stack starts over at update index 1: nothing is left to be ordered against
+			maxCommitted = 0
+		}
 		// every handle shows the committed state it last loaded
 		for j, hh := range hs {
 			if err := CompareView("C09/snapshot", fmt.Sprintf("%s: view of handle %d", what, j), hh.st, hh.snap); err != nil {
